@@ -22,6 +22,7 @@ func checkC12(c *Ctx, r *Report) {
 		"(E9) Sidx/Sidxs of File and MediaSegment are updated together; (W-FIRSTTREX) MvexBox.Trex, the first trex box, is read only by a frozen list of single-track functions; everything else looks the trex up by track id; (O-PRE) durations are summed after tfhd/trex defaults are applied, and the add-sidx tool removes boxes before the index sizes are computed. Does not decide the partition for a given delimiter mix or anchor-point arithmetic."
 	wireAssumptions(r)
 	ruleDelimitersConsulted(c, r)
+	ruleEveryCycleAppends(c, r, "mp4", "fillSidx", "SidxBox.SidxRefs", "a segment that Encode writes gets no reference, and the following references no longer tile the media")
 	ruleStartPosFromInput(c, r)
 	ruleDecoderNoSizeStore(c, r)
 	m := compositeVerdicts(c)
